@@ -474,6 +474,9 @@ class IncrementalExecutor(Executor[DeliveryGroupMap]):
                 delivery_group_map,
             )
         except Exception:
+            # fields that are still settled in the background must not leave
+            # behind new work (see handle_stream and collect_execution_groups)
+            self.collected_errors.null_position(path)
             self.abort_in_background()
             raise
 
@@ -484,6 +487,7 @@ class IncrementalExecutor(Executor[DeliveryGroupMap]):
                     data = await result
                 except (Exception, CancelledError):
                     # also abort the work produced so far when being cancelled
+                    self.collected_errors.null_position(path)
                     abort_result = self.abort()
                     if self.is_awaitable(abort_result):
                         await abort_result
@@ -730,6 +734,7 @@ class IncrementalExecutor(Executor[DeliveryGroupMap]):
                     )
                 except (Exception, CancelledError):
                     # also abort the work produced so far when being cancelled
+                    self.collected_errors.null_position(item_path)
                     abort_result = self.abort()
                     if is_awaitable(abort_result):
                         await abort_result
@@ -754,6 +759,7 @@ class IncrementalExecutor(Executor[DeliveryGroupMap]):
                 )
                 return self.build_stream_item_result(None)
         except Exception:
+            self.collected_errors.null_position(item_path)
             self.abort_in_background()
             raise
 
@@ -770,6 +776,7 @@ class IncrementalExecutor(Executor[DeliveryGroupMap]):
                         resolved = None
                 except (Exception, CancelledError):
                     # also abort the work produced so far when being cancelled
+                    self.collected_errors.null_position(item_path)
                     abort_result = self.abort()
                     if is_awaitable(abort_result):
                         await abort_result
